@@ -118,9 +118,16 @@ func (x *seqExec) wait(l *valuenotifier.Listener) string {
 			runtime.Gosched()
 			continue
 		}
+		if i > 20000 {
+			// neither returned nor recognisably parked inside the exported Wait: the rule is blind
+			cancel()
+			<-x.res
+			return "undecided"
+		}
 		x.snapshots++
 		gs := gdump.Snapshot()
-		if g, ok := gdump.Find(gs, x.gid); ok && g.State == "select" && g.Has("valuenotifier.(*Listener).Wait") {
+		// only the exported API frame and the runtime's wait state are consulted
+		if g, ok := gdump.Find(gs, x.gid); ok && g.Parked() && g.Has("valuenotifier.(*Listener).Wait") {
 			x.parked++
 			cancel()
 			err := <-x.res
@@ -256,7 +263,7 @@ func vnJudge(c *vf.Ctx, rep *reporter, h []vnOp, out []string, onlyLast bool) {
 						fp = fpStale
 					}
 					rep.viol(fp, fmt.Sprintf("history %s: the last Wait returned success although no Notify(%c) was called between the creation of l%d and its deregistration/this Wait", histString(h[:i+1]), 'a'+l.val, op.X), r)
-				case wasDereg && got != "dereg":
+				case wasDereg && (got == "ok" || got == "blocked"):
 					rep.viol(fpDeregNoError, fmt.Sprintf("history %s: l%d was deregistered at step %d but Wait returned %q instead of ErrListenerDeregistered", histString(h[:i+1]), op.X, l.dereg+1, got), r)
 				case !wasDereg && got == "blocked" && notified:
 					c.Count("vn_seq_lost_notifications(not demanded)", 1)
@@ -321,10 +328,24 @@ func vnEnumerate(maxLen int, visit func(h []vnOp)) {
 
 var sampleSeq bool
 
+// blindCheck: a Wait that must block (fresh listener, no Notify) has to be recognised as
+// parked by the snapshot rule; otherwise the rule cannot see and the run is INCONCLUSIVE.
+func (x *seqExec) blindCheck(c *vf.Ctx) bool {
+	got := x.wait(valuenotifier.New[int]().Listener(0))
+	if got != "blocked" {
+		c.Inconclusive("valuenotifier snapshot rule is blind: a Wait on a never-notified listener was classified " + got + " (expected: observed parked inside (*Listener).Wait)")
+		return false
+	}
+	return true
+}
+
 func vnEnumChild(c *vf.Ctx, maxLen, shard, shards int) {
 	runtime.GOMAXPROCS(2)
 	sampleSeq = shard == 0
 	x := newSeqExec()
+	if !x.blindCheck(c) {
+		return
+	}
 	rep := newReporter(c)
 	idx, done := 0, 0
 	vnEnumerate(maxLen, func(h []vnOp) {
